@@ -447,7 +447,7 @@ def rule_r1(chk) -> None:
         chk.ob("C27.R1", "the live reducer call receives the adapter's run id (seed material for jitter)", rid is not None and (dotted(rid) or "").endswith("adapter.run_id"), m=mcl, node=c, fn=pt,
                instance="seed:run-id-to-reducer", reason="run_id is not passed: jitter_seed is None and the retry policy falls back to the global random module")
     _, sr = repo.func(f"{CL}:_process_step_result_tick")
-    nexts = [c for c in ast.walk(sr) if isinstance(c, ast.Call) and isinstance(c.func, ast.Attribute) and c.func.attr == "next" and "retr" in ast.unparse(c.func.value)]
+    nexts = [c for c in ast.walk(sr) if isinstance(c, ast.Call) and isinstance(c.func, ast.Attribute) and c.func.attr == "next" and "retr" in ast.unparse(expand(c.func.value, c, depth=1)).lower()]
     if not nexts:
         raise AnchorError("C27.R1: no retry-policy `.next(…)` call in _process_step_result_tick")
     for c in nexts:
@@ -463,6 +463,9 @@ def rule_r1(chk) -> None:
                         for kk, vv in zip(d.keys, d.values):
                             if isinstance(kk, ast.Constant) and kk.value == "seed":
                                 seed_src = expand(vv, c)
+        if seed_src is not None:
+            from ..astx import dep_slice
+            seed_src = ast.Tuple(elts=list(dep_slice(sr, seed_src, stop=("run_id",)).exprs), ctx=ast.Load())
         ok = seed_src is not None and "run_id" in ast.unparse(seed_src)
         chk.ob("C27.R1", "the retry policy is called with the seed derived from (run_id, step, failures)", ok, m=mcl, node=c, fn=sr, instance="seed:to-policy",
                reason="no `seed` argument derived from run_id reaches retries.next(): jittered delays differ between the original run and its recovery")
@@ -846,6 +849,8 @@ def rule_r5(chk) -> None:
 
 
 def run(chk) -> None:
+    from ._engine import engine_view
+    chk.extra["helpers_inlined"] = engine_view(chk.repo)
     rule_r1(chk)
     rule_r2(chk)
     rule_r3(chk)
